@@ -2,9 +2,10 @@
    Only property theorems here.  [rt_params] = NV.gen.RtParams.rt_params, measured on the current dyn_array.c on every run.
    Scope (see level_note): the theorems are about the executable models NV.Runtime.DynArray (dyn_array.c + the emitted
    nl_array_slice) and NV.Runtime.Gc (gc.c without children); the ARC code the transpiler emits is not modelled. *)
-From Coq Require Import NArith ZArith List Bool.
-From NV Require Import Base.Bytes Runtime.DynArray Runtime.DynArrayProofs Runtime.Gc Runtime.GcProofs gen.RtParams.
+From Coq Require Import NArith ZArith List Bool Lia.
+From NV Require Import Base.Bytes Isa.Codec Runtime.DynArray Runtime.DynArrayProofs Runtime.Gc Runtime.GcProofs gen.RtParams.
 From NV Require Import Runtime.FmtSb Runtime.FmtSbProofs gen.FmtSbParams.
+From NV Require Import Runtime.ListRt Runtime.ListRtProofs gen.ListParams.
 Import ListNotations.
 
 (* the measured constants satisfy what the proofs need: INITIAL_CAPACITY >= 1, GROWTH_FACTOR >= 2, the built-in element sizes fit the
@@ -245,7 +246,7 @@ Proof. destruct C20_sb_growth_loops as (A & B & C & D & E & _). unfold loop_para
 Theorem C20_sb_ensure : forall s extra, (b_len s + extra + 1 <= 9223372036854775808)%N ->
   exists s', ensure fmtsb_params s extra = SOk s' /\ (b_len s + extra + 1 <= b_cap s')%N /\
              b_len s' = b_len s /\ b_text s' = b_text s /\ (b_cap s <= b_cap s')%N.
-Proof. exact (fun s extra => ensure_ok fmtsb_params s extra fmtsb_loop_params). Qed.
+Proof. exact (fun s extra => FmtSbProofs.ensure_ok fmtsb_params s extra fmtsb_loop_params). Qed.
 Print Assumptions C20_sb_ensure.
 
 (* append = list concatenation, invariant len + 1 <= cap, no write outside the block, from a builder of any initial capacity *)
@@ -268,3 +269,79 @@ Example C20_sb_grow_once_overflows :
   (exists s, append_all {| sb_mode := GrowLoop; sb_factor := 2; sb_default := 128; sb_slack := 1; sb_new_default := 128 |}
              (sb_new fmtsb_params 256) [[91]%N; repeat 120%N 600] = SOk s /\ b_cap s = 1024%N).
 Proof. split; [vm_compute; reflexivity|eexists; vm_compute; split; reflexivity]. Qed.
+
+(* ------------------------------------------------------------------------------------------------ the runtime list template
+   src/runtime/list_int.c (= list_token.c, the list_<Type>.c files and the output of scripts/generate_list.sh up to the element type --
+   checked by tools/gen/gen_listrt.py on every run; list_string.c differs by strdup/free of its elements and is probed separately).
+   [list_params] (INITIAL_CAPACITY, GROWTH_FACTOR) is measured on the current list_int.c. *)
+Theorem C20_list_params_good : good_lp list_params /\ list_growth_shape_ok = true.
+Proof. vm_compute. repeat split; repeat constructor. Qed.
+Print Assumptions C20_list_params_good.
+
+(* list_refines_list: for every history of push / pop / insert / remove / set / get / clear / length / is_empty, any values and indices,
+   the list with capacity, storage block and checked accesses produces the outputs, the final contents and the "Error ...; exit(1)"
+   stops of the plain list, where insert i v = firstn i l ++ v :: skipn i l.  (A capacity query ends the comparison: a sequence has
+   no capacity; the probe compares capacities with the concrete model.) *)
+Theorem C20_list_refines_list : forall ops s, rinv s ->
+  match arun (rabs s) ops with
+  | (outs, AFin l') => exists s', rrun list_params s ops = (outs, RFin s') /\ rabs s' = l' /\ rinv s'
+  | (outs, AExited) => rrun list_params s ops = (outs, RExited)
+  | (_, ANone) => True
+  end.
+Proof. exact (rrun_refines list_params (proj1 C20_list_params_good)). Qed.
+Print Assumptions C20_list_refines_list.
+
+(* ... from list_T_new() and from list_T_with_capacity(c) for every c (including 0) *)
+Theorem C20_list_refines_list_from_new : forall ops c,
+  (match arun [] ops with
+   | (outs, AFin l') => exists s', rrun list_params (rl_new list_params) ops = (outs, RFin s') /\ rabs s' = l'
+   | (outs, AExited) => rrun list_params (rl_new list_params) ops = (outs, RExited)
+   | (_, ANone) => True end) /\
+  (match arun [] ops with
+   | (outs, AFin l') => exists s', rrun list_params (rl_with_capacity c) ops = (outs, RFin s') /\ rabs s' = l'
+   | (outs, AExited) => rrun list_params (rl_with_capacity c) ops = (outs, RExited)
+   | (_, ANone) => True end).
+Proof.
+  intros ops c. split.
+  - pose proof (C20_list_refines_list ops (rl_new list_params) (rinv_new _)) as H. change (rabs (rl_new list_params)) with (@nil N) in H.
+    destruct (arun [] ops) as [outs f]. destruct f; auto. destruct H as (s' & A & B & _). exists s'. auto.
+  - pose proof (C20_list_refines_list ops (rl_with_capacity c) (rinv_new c)) as H. change (rabs (rl_with_capacity c)) with (@nil N) in H.
+    destruct (arun [] ops) as [outs f]. destruct f; auto. destruct H as (s' & A & B & _). exists s'. auto.
+Qed.
+Print Assumptions C20_list_refines_list_from_new.
+
+(* list_inv: length <= capacity, the block holds exactly capacity cells; preserved by every operation; no operation, whatever the
+   index, reads or writes outside the block *)
+Theorem C20_list_inv_step : forall s o s' x, rinv s -> rstep list_params s o = ROk_ s' x -> rinv s'.
+Proof. exact (fun s o s' x => rstep_inv list_params s o s' x (proj1 C20_list_params_good)). Qed.
+Print Assumptions C20_list_inv_step.
+
+Theorem C20_list_no_crash : forall s o, rinv s -> rstep list_params s o <> RCrash_.
+Proof. exact (fun s o => rstep_no_crash list_params s o (proj1 C20_list_params_good)). Qed.
+Print Assumptions C20_list_no_crash.
+
+(* insert, spelled out: also when the list is full and has to grow *)
+Theorem C20_list_insert : forall s i v, rinv s -> (0 <= i <= Z.of_nat (r_len s))%Z ->
+  exists s', rstep list_params s (RInsert i v) = ROk_ s' RUnit /\
+             rabs s' = firstn (Z.to_nat i) (rabs s) ++ v :: skipn (Z.to_nat i) (rabs s) /\ r_len s' = S (r_len s).
+Proof.
+  intros s i v I Hi. pose proof (rstep_refines list_params s (RInsert i v) (proj1 C20_list_params_good) I) as S.
+  unfold rsim in S. cbn [astep] in S. rewrite (rabs_len s I) in S.
+  assert (E : ((0 <=? i)%Z && (i <=? Z.of_nat (r_len s))%Z) = true).
+  { apply andb_true_iff. split; [apply Z.leb_le|apply Z.leb_le]; tauto. }
+  rewrite E in S. cbn [negb] in S. destruct S as (s' & A & B & C). exists s'. split; [exact A|]. split; [exact B|].
+  pose proof (rabs_len s' C) as L'. rewrite B in L'. rewrite app_length in L'. cbn [length] in L'.
+  rewrite firstn_length, skipn_length, (rabs_len s I) in L'. lia.
+Qed.
+Print Assumptions C20_list_insert.
+
+(* non-vacuity: the sorted insertion of 12 scrambled values (the 9th insert finds the list full: length 8 = capacity 8, index in the
+   middle) ends sorted, in the machine with capacities *)
+Example C20_list_nonvacuous :
+  let ins := [RInsert 0 3; RInsert 1 8; RInsert 0 0; RInsert 2 5; RInsert 4 10; RInsert 1 2; RInsert 4 7; RInsert 7 12; RInsert 3 4;
+              RInsert 7 9; RInsert 1 1; RInsert 6 6; RCapacity]%N%Z in
+  match rrun list_params (rl_new list_params) ins with
+  | (outs, RFin s) => list_N_eqb (rabs s) [0; 1; 2; 3; 4; 5; 6; 7; 8; 9; 10; 12]%N && Nat.eqb (r_cap s) 16 && Nat.eqb (length outs) 13
+  | _ => false
+  end = true.
+Proof. vm_compute. reflexivity. Qed.
